@@ -272,6 +272,9 @@ def whole_runs(chk):
     for i in range(n):
         cwd = os.path.join(root, 'cwd%d' % (i % 2))
         os.makedirs(cwd, exist_ok=True)
+        if i in (2, 3, 5):
+            # what an earlier run over a bigger project may have left behind: the same findings must still give the same bytes
+            open(os.path.join(cwd, 'solstat_report.md'), 'w').write(('# Gas Optimizations - (Total Optimizations 99999)\n' + '- Old.sol:%d\n' % i) * 40000)
         p = subprocess.run([binary, '--path', os.path.join(root, 'proj')], cwd=cwd, stdout=subprocess.PIPE, stderr=subprocess.PIPE)
         rp = os.path.join(cwd, 'solstat_report.md')
         text = open(rp, 'rb').read() if p.returncode == 0 and os.path.exists(rp) else ('exit %d' % p.returncode).encode()
